@@ -33,6 +33,24 @@ CHECKS = {
         text="For every colour glyph of generated COLRv1 fonts (reuse by rotation/reflection/scale, user transforms, content outside the viewBox, quantisation default/1/arbitrary) the ClipBox from the binary must contain each source shape placed by the statement's affine, the compiled outlines pushed through the paint transforms may protrude at most 1*sigma+fixed-point error, edges must be multiples of the step, and glyphs that paint nothing must have no box.",
         design="3/C05",
     ),
+    "C04": dict(
+        level="exploration",
+        technique="runtime monitoring: mini-shaper + identity-stamped sources over generated builds in all 13 formats; name-collision recorder H8",
+        text="Fonts in every colour format are built from identity-stamped sources (unique colour and size, PNG bytes for bitmap formats) whose file names encode hostile codepoint sequences and go through the real write_glyphmap / features / write_font code. A cmap+ccmp mini-shaper must reach exactly one glyph per sequence, the identity recovered from that glyph (COLR layer colour, SVG fill, stored PNG bytes, outline bounds) must be the source's, distinct sources must reach distinct glyphs, .notdef / space / sequence-only codepoints must be as stated and every advance must follow the rule.",
+        design="3/C04",
+    ),
+    "C06": dict(
+        level="exploration",
+        technique="runtime monitoring: metamorphic pair oracle (reuse on vs off) with display-list comparison; contracts H2 (reuse result geometry) and H10 (fall-back branch counters)",
+        text="Recurrence-heavy source sets are built twice from identical inputs (reuse_tolerance t>=0 and -1) as COLRv1, COLRv0 and picosvg; both builds must succeed (or both be refused for range) and the evaluated display lists must agree layer for layer within 1.5*t*nseg plus quantisation; the reuse build must actually reuse (hit counters) and the other must not.",
+        design="3/C06",
+    ),
+    "C07": dict(
+        level="exploration",
+        technique="runtime monitoring: struct-level binary validators + load/decompile/save/reload equality over every generated font",
+        text="Every font the in-process lane writes (all 13 formats, .ttf/.otf, coloured .notdef at any input position, shared-shape SVG documents, bitmap runs with gid gaps) is fully loaded, re-saved and reloaded with table-by-table XML equality, and its raw bytes are parsed by validators written from the spec for COLR v0/v1 record order and references, SVG document index order/disjointness/ids/hrefs/cross-glyph references, CBLC/CBDT runs and offsets, sbix, and cmap/hmtx/loca|CFF/maxp/post agreement incl. the post-format rule. maximum_color outputs go through the same validator in C12.",
+        design="3/C07",
+    ),
 }
 
 NOT_YET = {}
